@@ -111,6 +111,8 @@ class Builder:
                     self.lines.append(f"{name}[{json.dumps(n)}] = {e}" if i % 2 == 0 else f"{name}.{n} = {e}")
             return name
         if recipe == "share":
+            if top and key(s) in self.shared:
+                return self.shared[key(s)]          # the other operand holds this very container as a child
             def child(c):
                 if not is_container(c):
                     return lit(c)
@@ -149,6 +151,10 @@ FIXED = [
     [[0, 1], [0, 1]], [[0, 1], [1, 0]], [[[0]]], [[["a"]]], [[[0]], [[0]]], [{"a": [0]}], [{"a": [{}]}], {"a": [{"a": []}]},
     [[0, [1, [0]]]], {"a": {"a": {"a": 1}}}, {"a": {"a": {"a": "a"}}}, [[{"a": 1, "b": [0]}]], [[{"b": [0], "a": 1}]],
     [0, 1], [1, 0], [0, "a"], ["a", 0], [None, 0], [True, 1], [1, True], {"a": True}, {"a": 1}, {"a": None}, {"b": 1},
+    # same skeleton, different contents (answers `false` rather than an error)
+    [0], [1], [0, 0], [1, 1], ["a"], [""], ["a", ""], ["", "a"], [True], [False], [True, False], [[1]], [[0], [0, 0]],
+    {"a": 0}, {"a": 0, "b": 0}, {"a": 0, "b": 1}, {"a": 1, "b": 1}, {"b": 0}, {"b": 0, "c": 0}, {"a": "a"}, {"a": ""},
+    {"a": [1]}, {"a": {"a": 1}}, {"a": [0], "b": [1]}, [{"a": 1}], [{"a": 1}, {"a": 0}], [[0, 0], [0, 1]],
 ]
 
 
@@ -199,7 +205,7 @@ def value_pool(rng, n_shapes, n_values):
     extra = [(s, r) for s in shapes for r in recipes_for(s) if r != "lit"]
     rng.shuffle(extra)
     # every recipe kind must be present, and every fixed shape gets all of its recipes
-    must = [(s, r) for s in FIXED[:24] for r in recipes_for(s) if r != "lit"]
+    must = [(s, r) for s in FIXED[:20] for r in recipes_for(s) if r != "lit"]
     seen = set()
     out = list(vals)
     for s, r in must + extra:
